@@ -255,7 +255,10 @@ func (set *TemplateSet) fromFileReferredBy(filename string, from *Template) (*Te
 func (set *TemplateSet) RenderTemplateString(s string, ctx Context) (string, error) {
 	atomic.StoreUint32(&set.firstTemplateCreated, 1)
 
-	tpl := Must(set.FromString(s))
+	tpl, err := set.FromString(s)
+	if err != nil {
+		return "", err
+	}
 	result, err := tpl.Execute(ctx)
 	if err != nil {
 		return "", err
@@ -267,7 +270,10 @@ func (set *TemplateSet) RenderTemplateString(s string, ctx Context) (string, err
 func (set *TemplateSet) RenderTemplateBytes(b []byte, ctx Context) (string, error) {
 	atomic.StoreUint32(&set.firstTemplateCreated, 1)
 
-	tpl := Must(set.FromBytes(b))
+	tpl, err := set.FromBytes(b)
+	if err != nil {
+		return "", err
+	}
 	result, err := tpl.Execute(ctx)
 	if err != nil {
 		return "", err
@@ -279,7 +285,10 @@ func (set *TemplateSet) RenderTemplateBytes(b []byte, ctx Context) (string, erro
 func (set *TemplateSet) RenderTemplateFile(fn string, ctx Context) (string, error) {
 	atomic.StoreUint32(&set.firstTemplateCreated, 1)
 
-	tpl := Must(set.FromFile(fn))
+	tpl, err := set.FromFile(fn)
+	if err != nil {
+		return "", err
+	}
 	result, err := tpl.Execute(ctx)
 	if err != nil {
 		return "", err
